@@ -78,6 +78,8 @@ pub struct GenCfg {
     pub min_nodes: usize,
     pub max_nodes: usize,
     pub allow_xt: bool,
+    /// false: only In / Nq nodes (no firewalls, hence no projections)
+    pub allow_firewall: bool,
     pub allow_spawn: bool,
     pub allow_detached: bool,
     pub allow_unord: bool,
@@ -91,6 +93,7 @@ impl GenCfg {
             min_nodes: 3,
             max_nodes: 24,
             allow_xt: true,
+            allow_firewall: true,
             allow_spawn: true,
             allow_detached: false,
             allow_unord: true,
@@ -134,8 +137,8 @@ impl Program {
                     14u16,
                     if cfg.allow_xt { 8 } else { 0 },
                     90,
-                    64,
-                    if has_fw { 70 } else { 0 },
+                    if cfg.allow_firewall { 64 } else { 0 },
+                    if has_fw && cfg.allow_firewall { 70 } else { 0 },
                 ];
                 [Kind::In, Kind::Xt, Kind::Nq, Kind::Fw, Kind::Pj][t.weighted(&w)]
             };
